@@ -16,7 +16,7 @@ HEADER = 'From Coq Require Import String.\nRequire Import V.Corr.CorrC13.\nOpen 
 # closed under prefix / substring / digit-suffix relations
 BASES = ['A', 'A_B', 'A_A', 'AB', 'Fit', 'Fit_001', 'Fit2', 'SHO_Fit', 'Meas', 'Measure', 'Meas_Chan', 'C', 'C_C', 'X_1', 'X']
 DSETS = ['Raw', 'Raw_Data', 'Data', 'Raw2', 'Raw_Data_2', 'D']
-TOOLS = ['Fit', 'SHO_Fit', 'Fit2', 'Fitter', 'Mean', 'Mean_Val', 'Mean-Val', 'F', 'Fit_2', 'Mean_Val_07']
+TOOLS = ['Fit', 'SHO_Fit', 'Fit2', 'Fitter', 'Mean', 'Mean_Val', 'Mean-Val', 'F', 'Fit_2', 'Mean_Val_07', 'Fit_', 'SHO-']      # a trailing '_' / '-' (the latter is rewritten to '_') belongs to the tool name
 
 
 def cs(s):
@@ -80,13 +80,14 @@ def run(ctx, build):
             # designed histories (independent of the seed): numbers of different widths under one base (unpadded next to padded,
             # beyond 999), for indexed and for results groups; the first operations are then creations for exactly that base
             script = []
-            if hi < 6:
+            if hi < 7:
                 pre, script = [(['A_7', 'A_010', 'A_011'], [('idx', 'A'), ('idx', 'A')]),
                                (['Fit_999', 'Fit_1000'], [('idx', 'Fit'), ('idx', 'Fit')]),
                                (['Raw-Fit_9', 'Raw-Fit_010'], [('res', 'Raw', 'Fit'), ('res', 'Raw', 'Fit')]),
                                (['Raw-Fit_999', 'Raw-Fit_1000', 'Raw-Fit_2_003'], [('res', 'Raw', 'Fit'), ('res', 'Raw', 'Fit_2')]),
                                (['X_1_9', 'X_1_10', 'X_5'], [('idx', 'X_1'), ('idx', 'X')]),
-                               (['C_99', 'C_100', 'C_C_100'], [('idx', 'C'), ('idx', 'C_C')])][hi]
+                               (['C_99', 'C_100', 'C_C_100'], [('idx', 'C'), ('idx', 'C_C')]),
+                               (['Raw-Fit_001'], [('res', 'Raw', 'Fit_'), ('res', 'Raw', 'Fit'), ('res', 'Raw', 'Fit_'), ('res', 'Raw', 'SHO-')])][hi]
                 for nm in pre:
                     if nm not in root:
                         root.create_group(nm)
